@@ -156,6 +156,10 @@ let handle_smtp (kind : string) (ins : string list) (outs : string list) : bool 
         let pol = load_cfg (bool_of_field da) (f acc) (f rej) (bool_of_field ds) (f sto) (f dis) (f rejo) in
         let c = { pol = pol; max_rcpt = z_of_int (int_of_string maxr); max_bytes = z_of_int (int_of_string maxb);
                   tls_enabled = false } in
+        (* lua kinds carry a 7th observation: the raw reply lines (hex, ',' within a session, '|' between sessions) *)
+        let (outs, raw_lines) = match outs with
+          | [a; b; c; d; e; f; raw] -> ([a; b; c; d; e; f], Some raw)
+          | _ -> (outs, None) in
         (match outs with
          | [replies; mt; rt; ht; dump; status] ->
              let (mh, rh, gh) = rules in
@@ -231,6 +235,23 @@ let handle_smtp (kind : string) (ins : string list) (outs : string list) : bool 
                List.iteri (fun i (it, r) ->
                  let ((_, mr), _) = List.nth tr i in
                  if hooked it && r <> mr then add "C17:reply-differs-from-hook-answer") dlg;
+               (* C17: a denied MAIL / RCPT is refused with the hook's code AND text: the raw line is "%03d <text>" *)
+               (match raw_lines with
+                | Some raw when wl = None ->
+                    let mine = (try List.nth (String.split_on_char '|' raw) idx with _ -> "-") in
+                    let lines = if mine = "-" then [] else List.map Mlutil.unhex (String.split_on_char ',' mine) in
+                    let pos = ref 0 in
+                    List.iter (fun (it, r) ->
+                      (match it with
+                       | L (Mail (_, Deny (code, text))) | L (Rcpt (_, Deny (code, text))) when List.length r = 1 ->
+                           let want = Printf.sprintf "%03d %s" (int_of_z code) (raw_of_str text) in
+                           (match List.nth_opt lines !pos with
+                            | Some l when l = want -> ()
+                            | Some _ when int_of_z (first_code r) <> int_of_z code -> ()   (* refused earlier for another reason *)
+                            | _ -> add "C17:deny-text-differs-from-hook-answer")
+                       | _ -> ());
+                      pos := !pos + List.length r) dlg
+                | _ -> ());
                (* size rule on the implementation's dialogue *)
                let size_viol = List.exists (fun (it, r) ->
                  match it with
